@@ -347,3 +347,25 @@ func VerifH_C18_bindConstants_type() {
 		verifrt.Assert(err != nil, "HandleTypeSchemaCombine rejects ill-formed parameter lists with an error")
 	}
 }
+
+// floatToString / stringToFloat on the special values of binary64 (the decimal digits of FormatFloat are
+// not modelled symbolically, so this law is checked on concrete probes: every class of value and the
+// boundaries between them): the round trip is the identity, including the sign of zero.
+func VerifH_C18_float_string_roundtrip_special() {
+	f2s := verifHandler(getFloatToStringFunction()).(func(float64) string)
+	s2f := verifHandler(getStringToFloatFunction()).(func(string) (float64, error))
+	vals := []float64{0, math.Copysign(0, -1), 1, -1, 0.1, -0.1, 1e21, -1e21, 1e-7, 123456789.125,
+		math.MaxFloat64, -math.MaxFloat64, math.SmallestNonzeroFloat64, -math.SmallestNonzeroFloat64,
+		math.Inf(1), math.Inf(-1), math.NaN(), 9007199254740993, 4.9406564584124654e-324, 2.2250738585072014e-308}
+	a := vals[verifrt.Choice("value", len(vals))]
+	s := f2s(a)
+	r, err := s2f(s)
+	verifrt.Assert(err == nil, "stringToFloat(floatToString(a)) has no error")
+	if a != a {
+		verifrt.Reach("nan")
+		verifrt.Assert(r != r, "NaN survives the round trip")
+		return
+	}
+	verifrt.Assert(r == a, "stringToFloat(floatToString(a)) == a")
+	verifrt.Assert(math.Signbit(r) == math.Signbit(a), "the round trip keeps the sign (of zero too)")
+}
